@@ -1079,6 +1079,18 @@ def r13(ctx, rep):
                             t = show(cj, maxdepth=10)
                             if t.startswith(tname) and "is_relation()" in t and not t.startswith("!") and "||" not in t:
                                 guarded = True
+                            # the same test under a name: `let is_rel = match <ty>.as_ref() { Some(t) => t.is_relation(), None => false };`
+                            if cj.get("k") == "path" and cj["p"] in inits and len(inits[cj["p"]]) == 1:
+                                i_ = inits[cj["p"]][0]
+                                ti = show(i_, maxdepth=10)
+                                if ti.startswith(tname) and "is_relation()" in ti and "||" not in ti and not ti.startswith("!"):
+                                    guarded = True
+                                if i_.get("k") == "match" and show(i_["e"], maxdepth=6).startswith(tname):
+                                    arms = {show(a_["pat"]): show(a_["body"], maxdepth=6) for a_ in i_["arms"]}
+                                    some = [v for k_, v in arms.items() if k_.startswith("Some(")]
+                                    none = [v for k_, v in arms.items() if k_ in ("None", "_")]
+                                    if len(some) == 1 and re.fullmatch(r"\w+\.is_relation\(\)", some[0]) and none == ["false"]:
+                                        guarded = True
                     cur = p_
             rep.check(built or guarded, f"table-decl-type:{f['name']}:{n_sites}", f"{f['name']} declares a table whose type is `{show(tyv, maxdepth=6)}`: neither built with `Ty::relation(..)` nor under a test "
                       f"`{show(tyv)}..is_relation()`; readers of table declarations unwrap `ty.as_relation()` (lineage_of_table_decl, lower_table_decl), so a reference to this declaration panics",
